@@ -70,7 +70,33 @@ func (c cuConf) toConf(id string) *filter.ConfigCustom {
 	return &filter.ConfigCustom{ID: id, UpdateTime: t, Rules: rules, Enabled: c.enabled}
 }
 
+// cuDistinct makes genCU draw histories in which the update times of a profile
+// go back and forth but never repeat (runCU moves a repeated time on), and in
+// which in-flight requests still carry the previous configuration.  Since the
+// storage compares the times for equality, the oracle judges these as well.
+var cuDistinct = false
+
 func genCU(rng *rand.Rand, versioned bool, length int) (ops []cuOp) {
+	if cuDistinct {
+		for len(ops) < length {
+			p := rng.IntN(3)
+			if rng.IntN(4) == 0 {
+				var doms []string
+				for _, d := range domains {
+					if rng.IntN(2) == 0 {
+						doms = append(doms, d)
+					}
+				}
+				bump := int64(rng.IntN(7)-3) * cuUnits[rng.IntN(len(cuUnits))]
+				ops = append(ops, cuOp{kind: "update", prof: p, bump: bump, enabled: rng.IntN(6) != 0, doms: doms})
+			} else {
+				ops = append(ops, cuOp{kind: "q", prof: p, host: hosts[rng.IntN(len(hosts))], old: rng.IntN(5) == 0})
+			}
+		}
+
+		return ops
+	}
+
 	for len(ops) < length {
 		p := rng.IntN(3)
 		if rng.IntN(5) == 0 {
@@ -115,6 +141,7 @@ func customCampaign(o *hlib.Opts, r *hlib.Result, m *hlib.Model) {
 	}
 	for i := 0; i < n; i++ {
 		versioned := i%3 != 0
+		cuDistinct = i%3 == 2
 		capn := []int{1, 2, 100}[rng.IntN(3)]
 		cuIDs = cuIDSets[i%len(cuIDSets)]
 		ops := genCU(rng, versioned, 10+rng.IntN(50))
@@ -125,6 +152,7 @@ func customCampaign(o *hlib.Opts, r *hlib.Result, m *hlib.Model) {
 		}
 	}
 	cuIDs = cuIDSets[0]
+	cuDistinct = false
 	if o.Thorough() {
 		exhaustiveCU(r, m)
 	}
@@ -187,12 +215,21 @@ func runCU(r *hlib.Result, m *hlib.Model, versioned bool, capn int, ops []cuOp, 
 		what       string
 	}
 	var seen []obs
-	nFiltered, nNone, nUpd := 0, 0, 0
+	nFiltered, nNone, nUpd, nBack := 0, 0, 0, 0
+	usedUpd := [3]map[int64]bool{{cuBase: true}, {cuBase: true}, {cuBase: true}}
 	for _, op := range ops {
 		if op.kind == "update" {
 			prev[op.prof] = cur[op.prof]
 			nextVer++
-			cur[op.prof] = cuConf{upd: cur[op.prof].upd + op.bump, ver: nextVer, doms: op.doms, enabled: op.enabled}
+			upd := cur[op.prof].upd + op.bump
+			for cuDistinct && usedUpd[op.prof][upd] {
+				upd++
+			}
+			usedUpd[op.prof][upd] = true
+			if upd < cur[op.prof].upd {
+				nBack++
+			}
+			cur[op.prof] = cuConf{upd: upd, ver: nextVer, doms: op.doms, enabled: op.enabled}
 			nUpd++
 
 			continue
@@ -224,7 +261,8 @@ func runCU(r *hlib.Result, m *hlib.Model, versioned bool, capn int, ops []cuOp, 
 			s = append(s, op.String())
 		}
 
-		return map[string]any{"campaign": "custom", "cache_count": capn, "update_time_strictly_increasing": versioned,
+		return map[string]any{"campaign": "custom", "cache_count": capn, "update_time_strictly_increasing": versioned && !cuDistinct,
+			"update_times_distinct_per_version": versioned,
 			"profile_ids": map[string]string{"c0": cuIDs[0], "c1": cuIDs[1], "c2": cuIDs[2]}, "ops": s}
 	}
 	for _, ob := range seen {
@@ -258,6 +296,8 @@ func runCU(r *hlib.Result, m *hlib.Model, versioned bool, capn int, ops []cuOp, 
 	}
 	if record {
 		r.Count(fmt.Sprintf("custom.versioned_%v", versioned))
+		r.Count(fmt.Sprintf("custom.times_go_back_%v", cuDistinct))
+		r.Distribution["custom.updates_with_earlier_time"] += nBack
 		r.Count("custom.ids_" + cuIDs[0])
 		r.Count(fmt.Sprintf("custom.cap_%d", capn))
 		r.Distribution["custom.answers_filtered"] += nFiltered
